@@ -10,12 +10,12 @@ from . import common
 
 ID = 'C06'
 LEVEL = 'fault_enumeration'
-RUNS = {'quick': 480, 'thorough': 2400}
+RUNS = {'quick': 400, 'thorough': 2400}
 CHUNK = 4
 RECHECK_MOD = 53
 PROBES = ['cut_in_header', 'cut_in_threadmap', 'cut_in_stackshot_scan', 'cut_in_chunkhdr', 'cut_in_record',
           'cut_at_record_boundary', 'cut_in_block', 'cut_in_pad', 'eio_fired', 'count_limit', 'v2', 'v3',
-          'cut_in_event_tag_scan']
+          'cut_in_event_tag_scan', 'cli_run']
 RULE = ('one run = one simulated dump (SimKernel threads -> merged stream -> v2/v3 writer) with every cut offset '
         '0..len (thorough) or all structure boundaries +-2 plus a seeded sample (quick), each parsed through SimReader '
         'under a read budget of 8*len+10000 calls/bytes; non-trivial = the dump holds >= 1 record and >= 1 cut landed '
@@ -43,6 +43,7 @@ def generate(rng, index, tier):
     scn['counts'] = [0, 1, rng.randint(0, max(1, nrec)), nrec + 5]
     scn['color'] = rng.chance(0.15)
     scn['filter_tid'] = threads[0]['tid'] if threads and rng.chance(0.2) else None
+    scn['cli'] = index % 12 == 0
     return scn
 
 
@@ -73,13 +74,15 @@ def _views(data, table, scn, budget=True, eio=None, deep=True):
             except Exception as e:
                 texts.append([type(t).__name__, 'str-raised:' + type(e).__name__])
         out['traces'] = (texts, type(exc).__name__ if exc else None)
-        if scn['writer']['version'] == 2:
-            p = common.new_parser(color=bool(scn.get('color')), show_tid=True, filter_tid=scn.get('filter_tid'))
-            items, exc = common.drain(lambda: p.formatted_traces(reader(), table))
-            out['formatted_traces'] = (items, type(exc).__name__ if exc else None)
-            p = common.new_parser(show_tid=True, filter_tid=scn.get('filter_tid'))
-            items, exc = common.drain(lambda: p.formatted_kevents(reader(), table))
-            out['formatted_kevents'] = (items, type(exc).__name__ if exc else None)
+        p = common.new_parser(color=bool(scn.get('color')), show_tid=True, filter_tid=scn.get('filter_tid'))
+        items, exc = common.drain(lambda: p.formatted_traces(reader(), table))
+        out['formatted_traces'] = (items, type(exc).__name__ if exc else None)
+        p = common.new_parser(show_tid=True, filter_tid=scn.get('filter_tid'))
+        items, exc = common.drain(lambda: p.formatted_kevents(reader(), table))
+        out['formatted_kevents'] = (items, type(exc).__name__ if exc else None)
+        p = common.new_parser(show_tid=True, filter_tid=scn.get('filter_tid'))
+        items, exc = common.drain(lambda: p.formatted_callstacks(reader(), table))
+        out['formatted_callstacks'] = (items, type(exc).__name__ if exc else None)
     return out
 
 
@@ -217,6 +220,35 @@ def execute(scn):
                     viols.append({'tag': 'count-limit-wrong-number', 'sig': 'v%d:%s' % (ver, view),
                                   'detail': 'count=%d printed %d lines, unlimited %d' % (c, part.count('\n'), whole.count('\n'))})
             hist.append(['count', view, c, None if part is None else len(part)])
+    # a share of runs through the real command-line interface on a real (temporary) file
+    if scn.get('cli') and not viols:
+        import os
+        import tempfile
+        from click.testing import CliRunner
+        from pykdebugparser.__main__ import cli
+        runner = CliRunner()
+        with tempfile.TemporaryDirectory() as td:
+            path = os.path.join(td, 'dump')
+
+            def run_cli(blob, args):
+                with open(path, 'wb') as f:
+                    f.write(blob)
+                res = runner.invoke(cli, args + [path] if False else [args[0], path] + args[1:])
+                return res.output, type(res.exception).__name__ if res.exception is not None and not isinstance(res.exception, SystemExit) else None
+            for cmd in (['kevents'], ['traces', '--no-color'], ['callstacks']):
+                whole, _exc = run_cli(data, cmd)
+                bump('probe:cli_run')
+                for c in scn.get('counts', [])[:3]:
+                    part, exc = run_cli(data, cmd + ['-c', str(c)])
+                    if not whole.startswith(part):
+                        viols.append({'tag': 'cli-count-limit-changes-lines', 'sig': cmd[0], 'detail': 'count=%d output is not a prefix of the unlimited output' % c})
+                for k in [c for c in cuts if c % 7 == 0][:12]:
+                    part, exc = run_cli(data[:k], cmd)
+                    bump('fault:truncate')
+                    if not whole.startswith(part):
+                        viols.append({'tag': 'cli-not-prefix', 'sig': 'v%d:%s' % (ver, cmd[0]),
+                                      'detail': 'file cut at %d: CLI printed text that is not a prefix of its output on the whole file' % k})
+                hist.append(['cli', cmd[0], len(whole)])
     return {'violations': viols, 'digest': digest_of(scn, hist), 'stats': stats,
             'nontrivial': len(rb) >= 1 and inside >= 1, 'shape': '|'.join(sorted(shapes))[:400],
             'extent': {'records_delivered': len(rb) * len(cuts), 'cuts': len(cuts), 'file_bytes': n}}
